@@ -140,6 +140,8 @@ def run(chk):
         cut_shapes = G.ALL_SHAPES
     for sc in G.cut_scenarios(cut_shapes, steps_of, all_compositions_upto=0 if quick else 8):
         scen.append(('cut', sc))
+    for sc in G.torn_scenarios():
+        scen.append(('torn', sc))
     for sc in G.long_line_scenarios():
         scen.append(('cut-long', sc))
     _dbg('enumerated', len(scen))
